@@ -9,8 +9,6 @@ package main
 import (
 	"bytes"
 	"fmt"
-	"go/ast"
-	"go/token"
 	"math/bits"
 	"os"
 	"path/filepath"
@@ -247,124 +245,9 @@ deriving Repr, DecidableEq, Inhabited
 	emit("Norms", &b)
 }
 
-// genCoalEventTypes extracts the switch of GetAuditEventType as ordered (lo, hi, category) ranges.
+// genCoalEventTypes: see eventtypes.go.
 func genCoalEventTypes(repo string, root *pkg) {
-	p := load(repo, "aucoalesce", "aucoalesce")
-	var fn *ast.FuncDecl
-	for _, f := range p.files {
-		for _, d := range f.Decls {
-			if fd, ok := d.(*ast.FuncDecl); ok && fd.Name.Name == "GetAuditEventType" && fd.Recv == nil {
-				fn = fd
-			}
-		}
-	}
-	if fn == nil || fn.Body == nil {
-		fatal("aucoalesce.GetAuditEventType not found")
-	}
-	if len(fn.Type.Params.List) != 1 || len(fn.Type.Params.List[0].Names) != 1 {
-		fatal("GetAuditEventType: unexpected parameter list")
-	}
-	param := fn.Type.Params.List[0].Names[0].Name
-	var sw *ast.SwitchStmt
-	for _, st := range fn.Body.List {
-		if s, ok := st.(*ast.SwitchStmt); ok {
-			if sw != nil {
-				fatal("GetAuditEventType: more than one switch")
-			}
-			sw = s
-		} else {
-			fatal("GetAuditEventType: statement of unexpected shape at %s (only one tagless switch is understood)", p.fset.Position(st.Pos()))
-		}
-	}
-	if sw == nil || sw.Tag != nil || sw.Init != nil {
-		fatal("GetAuditEventType: expected a tagless switch")
-	}
-	isParam := func(e ast.Expr) bool {
-		id, ok := e.(*ast.Ident)
-		return ok && id.Name == param
-	}
-	cmp := func(e ast.Expr, op token.Token) (int64, bool) {
-		be, ok := e.(*ast.BinaryExpr)
-		if !ok || be.Op != op || !isParam(be.X) {
-			return 0, false
-		}
-		return p.exprInt(be.Y)
-	}
-	retVal := func(cc *ast.CaseClause) int64 {
-		if len(cc.Body) != 1 {
-			fatal("GetAuditEventType: case body of unexpected shape at %s", p.fset.Position(cc.Pos()))
-		}
-		rs, ok := cc.Body[0].(*ast.ReturnStmt)
-		if !ok || len(rs.Results) != 1 {
-			fatal("GetAuditEventType: case body of unexpected shape at %s", p.fset.Position(cc.Pos()))
-		}
-		v, ok := p.exprInt(rs.Results[0])
-		if !ok {
-			fatal("GetAuditEventType: returned value is not a constant at %s", p.fset.Position(rs.Pos()))
-		}
-		return v
-	}
-	var items []string
-	def := int64(-1)
-	seenDefault := false
-	for _, st := range sw.Body.List {
-		cc := st.(*ast.CaseClause)
-		if seenDefault {
-			// Go evaluates default last wherever it stands; keep the extraction simple and insist it is last
-			fatal("GetAuditEventType: default is not the last clause")
-		}
-		cat := retVal(cc)
-		if cc.List == nil {
-			def = cat
-			seenDefault = true
-			continue
-		}
-		for _, e := range cc.List {
-			if v, ok := cmp(e, token.EQL); ok {
-				items = append(items, fmt.Sprintf("(%d, %d, %d)", v, v, cat))
-				continue
-			}
-			if be, ok := e.(*ast.BinaryExpr); ok && be.Op == token.LAND {
-				lo, ok1 := cmp(be.X, token.GEQ)
-				hi, ok2 := cmp(be.Y, token.LEQ)
-				if ok1 && ok2 {
-					items = append(items, fmt.Sprintf("(%d, %d, %d)", lo, hi, cat))
-					continue
-				}
-			}
-			fatal("GetAuditEventType: case expression of unexpected shape at %s (understood: t == A, t >= A && t <= B)", p.fset.Position(e.Pos()))
-		}
-	}
-	if def < 0 {
-		fatal("GetAuditEventType: no default clause")
-	}
-	// cross-check against the running library on every record type
-	type rng struct{ lo, hi, cat int64 }
-	var rs []rng
-	for _, it := range items {
-		var r rng
-		fmt.Sscanf(it, "(%d, %d, %d)", &r.lo, &r.hi, &r.cat)
-		rs = append(rs, r)
-	}
-	for t := int64(0); t < 65536; t++ {
-		want := int64(aucoalesce.GetAuditEventType(auparse.AuditMessageType(t)))
-		got := def
-		for _, r := range rs {
-			if r.lo <= t && t <= r.hi {
-				got = r.cat
-				break
-			}
-		}
-		if got != want {
-			fatal("GetAuditEventType: extracted ranges give category %d for record type %d, the library gives %d", got, t, want)
-		}
-	}
-	var b bytes.Buffer
-	b.WriteString("namespace LA.Gen.CoalEventTypes\n\n/-- the cases of `GetAuditEventType` in source order: (lo, hi, category); first match wins. -/\n")
-	chunked(&b, "ranges", "Nat × Nat × Nat", items)
-	fmt.Fprintf(&b, "\n/-- the `default:` category -/\ndef defaultCategory : Nat := %d\n", def)
-	b.WriteString("\nend LA.Gen.CoalEventTypes\n")
-	emit("CoalEventTypes", &b)
+	emitEventTypes("CoalEventTypes", extractEventTypes(load(repo, "aucoalesce", "aucoalesce")))
 }
 
 // genCoalesceConsts emits the record type numbers the coalescer switches on, the os.FileMode
